@@ -39,8 +39,11 @@ class FakeTransport(asyncio.DatagramTransport):
         if k == "reply":
             self._later(o[1], self._deliver, o[2])
         elif k == "two":
-            self._later(o[1], self._deliver, o[2])
-            self._later(o[3], self._deliver, o[4])
+            if o[3] == o[1]:  # same instant: datagrams are delivered in the order they were sent
+                self._later(o[1], self._deliver_both, o[2], o[4])
+            else:
+                self._later(o[1], self._deliver, o[2])
+                self._later(o[3], self._deliver, o[4])
         elif k == "oserror":
             self._later(o[1], self._error)
         elif k == "lost":
@@ -68,6 +71,10 @@ class FakeTransport(asyncio.DatagramTransport):
     def _deliver(self, data):
         if not self.closing:
             self.protocol.datagram_received(data, ("192.0.2.1", 161))
+
+    def _deliver_both(self, a, b):
+        self._deliver(a)
+        self._deliver(b)
 
     def _error(self):
         if not self.closing:
